@@ -232,6 +232,11 @@ class PassWorld(World):
             return False
         return super().bind(p, v, env, uses)
 
+    def k_receiver(self, k_):
+        """the value an opaque method result `recv.m(..)` was computed from, or None"""
+        ent = getattr(self, "_k_recv", {}).get(id(k_))
+        return ent[1] if ent is not None and ent[0] is k_ else None
+
     def default_of(self, ty):
         """the Default value of a type text (sets, maps, vectors, options, booleans, structs of those)"""
         base = ty.split("<")[0]
@@ -392,8 +397,8 @@ class PassWorld(World):
             if p not in env and last(p) in self.free and "::" not in p:
                 return ("F", p)
             sg0 = p.split("::")
-            if self.lenient_opaque and len(sg0) == 2 and sg0[0][:1].isupper() and sg0[1][:1].islower() and p not in env and (sg0[0], sg0[1]) not in self.methods and sg0[1] in ("from", "into", "new", "to_string", "clone"):
-                return ("PY", lambda *a, p=p: ("K", p, tuple(a)))  # a conversion of a type defined elsewhere, used as a function value
+            if self.lenient_opaque and len(sg0) == 2 and sg0[0][:1].isupper() and sg0[1][:1].islower() and p not in env and (sg0[0], sg0[1]) not in self.methods and sg0[0] not in self.enums and sg0[0] not in self.structs and sg0[0] != "Self":
+                return ("PY", lambda *a, p=p: ("K", p, tuple(a)))  # an associated function of a type defined elsewhere, used as a function value
             if self.lenient_opaque and len(sg0) == 2 and sg0[0][:1].isupper() and sg0[1][:1].isupper() and p not in env and sg0[0] not in self.enums and sg0[0] not in self.structs and self.variant(p, uses + list(self.file_uses)) is None and p not in self.consts:
                 return ("O", p, ())  # a unit variant / associated constant of a type defined elsewhere
         if k == "Field":
@@ -648,6 +653,56 @@ class PassWorld(World):
                 if m == "reverse" and not args:
                     recv.items.reverse()
                     return ("T", ())
+                if m in ("sort_by_key", "sort_unstable_by_key", "sort_by_cached_key") and len(args) == 1:
+                    def plain(k_):
+                        if isinstance(k_, (int, str)) and not isinstance(k_, bool):
+                            return k_
+                        if isinstance(k_, tuple) and k_ and k_[0] == "T" and all(isinstance(x, (int, str)) for x in k_[1]):
+                            return tuple(k_[1])
+                        raise Unsupported("sort key %r" % (k_,))
+                    keyed = [(plain(self.apply(args[0], [x], uses)), i, x) for i, x in enumerate(recv.items)]
+                    if len({type(k_[0]) for k_ in keyed}) > 1:
+                        raise Unsupported("sort keys of different types")
+                    keyed.sort(key=lambda t_: (t_[0], t_[1]))
+                    recv.items[:] = [t_[2] for t_ in keyed]
+                    return ("T", ())
+                if m == "dedup" and not args:
+                    out_ = []
+                    for x in recv.items:
+                        if not (out_ and (out_[-1] is x or out_[-1] == x)):
+                            out_.append(x)
+                    recv.items[:] = out_
+                    return ("T", ())
+                if m == "truncate" and len(args) == 1 and isinstance(args[0], int):
+                    del recv.items[args[0]:]
+                    return ("T", ())
+                if m == "clear" and not args:
+                    del recv.items[:]
+                    return ("T", ())
+                if m == "swap_remove" and len(args) == 1 and isinstance(args[0], int):
+                    if args[0] >= len(recv.items):
+                        raise Panic("swap_remove(%d) on a vector of length %d" % (args[0], len(recv.items)))
+                    x = recv.items[args[0]]
+                    recv.items[args[0]] = recv.items[-1]
+                    recv.items.pop()
+                    return x
+                if m == "split_off" and len(args) == 1 and isinstance(args[0], int):
+                    if args[0] > len(recv.items):
+                        raise Panic("split_off(%d) on a vector of length %d" % (args[0], len(recv.items)))
+                    t_ = Sink()
+                    t_.items = recv.items[args[0]:]
+                    del recv.items[args[0]:]
+                    return t_
+                if m == "retain" and len(args) == 1:
+                    keep_ = []
+                    for x in recv.items:
+                        r_ = self.apply(args[0], [x], uses)
+                        if not isinstance(r_, bool):
+                            raise Unsupported("retain with a predicate that returns %r" % (r_,))
+                        if r_:
+                            keep_.append(x)
+                    recv.items[:] = keep_
+                    return ("T", ())
                 if m in ("sort", "sort_unstable") and not args:
                     if all(isinstance(x, int) for x in recv.items):
                         recv.items.sort()
@@ -856,7 +911,11 @@ class PassWorld(World):
                     return recv
                 if self.lenient_opaque:
                     args = [self.eval(a, env, uses) for a in e["args"]]
-                    return ("K", "%s.%s" % (recv[1], m), tuple(args))
+                    k_ = ("K", "%s.%s" % (recv[1], m), tuple(args))
+                    if not hasattr(self, "_k_recv"):
+                        self._k_recv = {}
+                    self._k_recv[id(k_)] = (k_, recv)  # what the opaque result was computed from (see k_receiver)
+                    return k_
                 raise Unsupported("method %s on opaque %s" % (m, recv[1]))
             if isinstance(recv, str) and m in ("to_string", "to_owned", "clone", "as_str", "into", "as_ref") and not e["args"]:
                 return recv
